@@ -533,8 +533,8 @@ def check_set(dv, node, root, x, report, fresh):
 
 MODELLED_RAISES = {
     # callee -> the raise sites the escape analysis knows how to exclude, as (exception, atom that must guard it)
-    "FIXContainer.add_group": [("FIXMessageError", "isinstance(group, FIXContainer)"), ("FIXMessageError", "isinstance(group_container, _FIXRepeatingGroupContainer)")],
-    "FIXContainer.set": [("FIXMessageError", None), ("DuplicatedTagError", "t in self.tags")],
+    "FIXContainer.add_group": [("FIXMessageError", r"isinstance\(\w+, FIXContainer\)"), ("FIXMessageError", r"isinstance\(\w+, _FIXRepeatingGroupContainer\)")],
+    "FIXContainer.set": [("FIXMessageError", None), ("DuplicatedTagError", r"\w+ in self\.tags")],
 }
 
 
@@ -554,7 +554,7 @@ def unmodelled_raises(repo, qual):
             in_handler = any(isinstance(p, ast.ExceptHandler) for p in _ancestors(n.ast))
             ok = False
             for exc, atom in MODELLED_RAISES.get(qual, []):
-                if exc == name and (atom is None and in_handler or atom is not None and any(atom in a for a in atoms)):
+                if exc == name and (atom is None and in_handler or atom is not None and any(re.search(atom, a) for a in atoms)):
                     ok = True
             if not ok:
                 out.append((name, n.ast, sorted(atoms)[:3]))
